@@ -120,6 +120,12 @@ def getItem (byId named : List (String × LV)) (key : String) : Option LV :=
   | some (.many ds) => some (.many ds)
   | _ => assocGet byId key
 
+/-- `dna[key]` with fix C12-F400: a name that is known answers its decision, `None` when inactive. -/
+def getItemFixed (byId named : List (String × LV)) (key : String) : Option LV :=
+  match assocGet named key with
+  | some v => some v
+  | none => assocGet byId key
+
 /-- `dna[dp]` for a decision point; `none` = KeyError. -/
 def getItemDp (byId : List (String × LV)) (dp : Dp) : Option LV := assocGet byId (renderId dp.id)
 
